@@ -61,3 +61,26 @@ Lemma ex_nests :
   nests ex_A_IM ex_sg_IM_pre ex_IM_pre ex_IM = true /\
   nests ex_A_split_mig ex_sg_asym_wrong ex_split_asym_mig ex_split_mig = false.
 Proof. repeat split; vm_compute; reflexivity. Qed.
+
+(** two-sided nesting (nests2): bottlegrowth_split_mig_sel at T = 0 against split_mig_sel at nu1 = nu2 = 1, over the common
+    parameters (nuB, nuF, m, Ts, gamma1, gamma2) with Ts > 0 *)
+(* bottlegrowth_split_mig_sel('nuB', 'nuF', 'm', 'T', 'Ts', 'gamma1', 'gamma2') *)
+Definition ex_bgsm_sel : prog :=
+  (Step IGrid (Step (IPhi1D (Const (1 # 1)) (Const (1 # 1)) (Var 5) (Const (1 # 2)) (Const (1 # 1))) (IfGe (Var 3) (Var 4) (Step (IIntegrate (Sub (Var 3) (Var 4)) [(Mul (Var 0) (Exp (Div (Mul (Log (Div (Var 1) (Var 0))) TVar) (Var 3))))] [[(Const (0 # 1))]] [(Var 5)] [(Const (1 # 2))] (Const (1 # 1)) (Const (1 # 1)) [false] [false]) (Step (ISplit 1 0) (Step (IIntegrate (Var 4) [(Mul (Mul (Var 0) (Exp (Div (Mul (Log (Div (Var 1) (Var 0))) (Sub (Var 3) (Var 4))) (Var 3)))) (Exp (Div (Mul (Log (Div (Var 1) (Mul (Var 0) (Exp (Div (Mul (Log (Div (Var 1) (Var 0))) (Sub (Var 3) (Var 4))) (Var 3)))))) TVar) (Var 4)))); (Mul (Mul (Var 0) (Exp (Div (Mul (Log (Div (Var 1) (Var 0))) (Sub (Var 3) (Var 4))) (Var 3)))) (Exp (Div (Mul (Log (Div (Var 1) (Mul (Var 0) (Exp (Div (Mul (Log (Div (Var 1) (Var 0))) (Sub (Var 3) (Var 4))) (Var 3)))))) TVar) (Var 4))))] [[(Const (0 # 1)); (Var 2)]; [(Var 2); (Const (0 # 1))]] [(Var 5); (Var 6)] [(Const (1 # 2)); (Const (1 # 2))] (Const (1 # 1)) (Const (1 # 1)) [false; false] [false; false]) (Step (IFromPhi 2) Done)))) (Step (ISplit 1 0) (Step (IIntegrate (Sub (Var 4) (Var 3)) [(Const (1 # 1)); (Const (1 # 1))] [[(Const (0 # 1)); (Var 2)]; [(Var 2); (Const (0 # 1))]] [(Var 5); (Var 6)] [(Const (1 # 2)); (Const (1 # 2))] (Const (1 # 1)) (Const (1 # 1)) [false; false] [false; false]) (Step (IIntegrate (Var 3) [(Mul (Var 0) (Exp (Div (Mul (Log (Div (Var 1) (Var 0))) TVar) (Var 3)))); (Mul (Var 0) (Exp (Div (Mul (Log (Div (Var 1) (Var 0))) TVar) (Var 3))))] [[(Const (0 # 1)); (Var 2)]; [(Var 2); (Const (0 # 1))]] [(Var 5); (Var 6)] [(Const (1 # 2)); (Const (1 # 2))] (Const (1 # 1)) (Const (1 # 1)) [false; false] [false; false]) (Step (IFromPhi 2) Done))))))).
+
+(* the same function with gamma2 := gamma1 in the first two-population epoch of the branch T < Ts *)
+Definition ex_bgsm_sel_wrong : prog :=
+  (Step IGrid (Step (IPhi1D (Const (1 # 1)) (Const (1 # 1)) (Var 5) (Const (1 # 2)) (Const (1 # 1))) (IfGe (Var 3) (Var 4) (Step (IIntegrate (Sub (Var 3) (Var 4)) [(Mul (Var 0) (Exp (Div (Mul (Log (Div (Var 1) (Var 0))) TVar) (Var 3))))] [[(Const (0 # 1))]] [(Var 5)] [(Const (1 # 2))] (Const (1 # 1)) (Const (1 # 1)) [false] [false]) (Step (ISplit 1 0) (Step (IIntegrate (Var 4) [(Mul (Mul (Var 0) (Exp (Div (Mul (Log (Div (Var 1) (Var 0))) (Sub (Var 3) (Var 4))) (Var 3)))) (Exp (Div (Mul (Log (Div (Var 1) (Mul (Var 0) (Exp (Div (Mul (Log (Div (Var 1) (Var 0))) (Sub (Var 3) (Var 4))) (Var 3)))))) TVar) (Var 4)))); (Mul (Mul (Var 0) (Exp (Div (Mul (Log (Div (Var 1) (Var 0))) (Sub (Var 3) (Var 4))) (Var 3)))) (Exp (Div (Mul (Log (Div (Var 1) (Mul (Var 0) (Exp (Div (Mul (Log (Div (Var 1) (Var 0))) (Sub (Var 3) (Var 4))) (Var 3)))))) TVar) (Var 4))))] [[(Const (0 # 1)); (Var 2)]; [(Var 2); (Const (0 # 1))]] [(Var 5); (Var 6)] [(Const (1 # 2)); (Const (1 # 2))] (Const (1 # 1)) (Const (1 # 1)) [false; false] [false; false]) (Step (IFromPhi 2) Done)))) (Step (ISplit 1 0) (Step (IIntegrate (Sub (Var 4) (Var 3)) [(Const (1 # 1)); (Const (1 # 1))] [[(Const (0 # 1)); (Var 2)]; [(Var 2); (Const (0 # 1))]] [(Var 5); (Var 5)] [(Const (1 # 2)); (Const (1 # 2))] (Const (1 # 1)) (Const (1 # 1)) [false; false] [false; false]) (Step (IIntegrate (Var 3) [(Mul (Var 0) (Exp (Div (Mul (Log (Div (Var 1) (Var 0))) TVar) (Var 3)))); (Mul (Var 0) (Exp (Div (Mul (Log (Div (Var 1) (Var 0))) TVar) (Var 3))))] [[(Const (0 # 1)); (Var 2)]; [(Var 2); (Const (0 # 1))]] [(Var 5); (Var 6)] [(Const (1 # 2)); (Const (1 # 2))] (Const (1 # 1)) (Const (1 # 1)) [false; false] [false; false]) (Step (IFromPhi 2) Done))))))).
+
+(* split_mig_sel('nu1', 'nu2', 'T', 'm', 'gamma1', 'gamma2') *)
+Definition ex_split_mig_sel : prog :=
+  (Step IGrid (Step (IPhi1D (Const (1 # 1)) (Const (1 # 1)) (Var 4) (Const (1 # 2)) (Const (1 # 1))) (Step (ISplit 1 0) (Step (IIntegrate (Var 2) [(Var 0); (Var 1)] [[(Const (0 # 1)); (Var 3)]; [(Var 3); (Const (0 # 1))]] [(Var 4); (Var 5)] [(Const (1 # 2)); (Const (1 # 2))] (Const (1 # 1)) (Const (1 # 1)) [false; false] [false; false]) (Step (IFromPhi 2) Done))))).
+
+Definition ex_A_bgsm_common : assum := {| a_pos := [0%nat; 1%nat; 3%nat]; a_nonneg := [2%nat]; a_frac := (@nil nat) |}.
+Definition ex_sgc_bgsm : list expr := [(Var 0); (Var 1); (Var 2); (Const (0 # 1)); (Var 3); (Var 4); (Var 5)].
+Definition ex_sgs_bgsm : list expr := [(Const (1 # 1)); (Const (1 # 1)); (Var 3); (Var 2); (Var 4); (Var 5)].
+
+Lemma ex_nests2 :
+  nests2 ex_A_bgsm_common ex_sgc_bgsm ex_sgs_bgsm ex_bgsm_sel ex_split_mig_sel = true /\
+  nests2 ex_A_bgsm_common ex_sgc_bgsm ex_sgs_bgsm ex_bgsm_sel_wrong ex_split_mig_sel = false.
+Proof. split; vm_compute; reflexivity. Qed.
